@@ -40,6 +40,7 @@ class _T(object):
         self.yielding = False
         self.block_on = None      # object with .is_free() or None
         self.thread = None
+        self.n = 0                # scheduling points passed
 
 
 class Scheduler(object):
@@ -62,6 +63,8 @@ class Scheduler(object):
         self.trace_funcs = trace_funcs or set()
         self.monitors = []      # callables(sched, tid, label) run at every point
         self.problems = []      # monitor findings
+        self.state_fn = None    # () -> hashable digest of the shared state
+        self.states = set()     # distinct (thread positions, shared state) seen at decisions
 
     # -- called by the driver ---------------------------------------------
     def spawn(self, tid, fn):
@@ -116,6 +119,7 @@ class Scheduler(object):
         t.label = label
         t.yielding = yielding
         t.block_on = block_on
+        t.n += 1
         self.main_sem.release()
         t.sem.acquire()
         t.block_on = None
@@ -152,6 +156,13 @@ class Scheduler(object):
                 if pending:
                     self.deadlock = [(t.tid, t.label) for t in pending]
                 break
+            if self.state_fn is not None:
+                try:
+                    shared = self.state_fn()
+                except Exception:
+                    shared = "?"
+                self.states.add((tuple((tid, self.threads[tid].n, self.threads[tid].done) for tid in self.order),
+                                 shared))
             cur = self.current
             if cur is not None and cur in en and not cur.yielding:
                 order = [cur] + [t for t in en if t is not cur]
@@ -491,3 +502,26 @@ def make_sched_ram_storage(sched):
             return RamStorage.rename_file(self, a, b, safe=safe)
 
     return SchedRamStorage()
+
+
+def dir_digest(path):
+    """Cheap signature of a directory image: names and sizes, recursively."""
+    out = []
+    try:
+        for dirpath, dirnames, filenames in os.walk(path):
+            rel = os.path.relpath(dirpath, path)
+            for fn in filenames:
+                try:
+                    out.append((rel, fn, os.path.getsize(os.path.join(dirpath, fn))))
+                except OSError:
+                    out.append((rel, fn, -1))
+    except OSError:
+        pass
+    return tuple(sorted(out))
+
+
+def ram_digest(st):
+    try:
+        return tuple(sorted((n, len(st.files[n])) for n in list(st.files)))
+    except Exception:
+        return ()
